@@ -135,13 +135,28 @@ pub struct HtpStats {
 /// Algorithm 3 (HashToPoint): big-endian 16-bit chunks of SHAKE-256(msg), chunks >= 5q = 61445
 /// discarded, the rest reduced mod q, until n coefficients.
 pub fn hash_to_point(msg: &[u8], n: usize, stats: Option<&mut HtpStats>) -> Vec<i64> {
+    hash_to_point_on_stream(&[], msg, n, stats)
+}
+
+/// Algorithm 3 on the byte stream `prefix ++ SHAKE-256(msg)`: what the implementation must compute when its XOF
+/// reader is made to deliver `prefix` first (verification hook `install_xof_prefix`)
+pub fn hash_to_point_on_stream(prefix: &[u8], msg: &[u8], n: usize, stats: Option<&mut HtpStats>) -> Vec<i64> {
     let mut x = Shake256::xof(msg);
     let mut out = Vec::with_capacity(n);
     let mut st = HtpStats::default();
     let mut last_rejected = false;
+    let mut pos = 0usize;
+    let mut next = |x: &mut Shake256| -> u8 {
+        if pos < prefix.len() {
+            pos += 1;
+            prefix[pos - 1]
+        } else {
+            x.next_byte()
+        }
+    };
     while out.len() < n {
-        let hi = x.next_byte() as i64;
-        let lo = x.next_byte() as i64;
+        let hi = next(&mut x) as i64;
+        let lo = next(&mut x) as i64;
         let t = (hi << 8) | lo;
         st.chunks += 1;
         match t {
